@@ -173,11 +173,13 @@ func (fv *FuncVC) sortSlice(call *ast.CallExpr, stable bool, st *State) ([]Val, 
 	after := fv.th.freshConst("sorted", arraySort(SInt, es))
 	fv.setHeap(st, h, sx("store", H, ref, after))
 	pi, _ := fv.permutationFacts(st, before, after, n)
-	// no inversion
-	lji, _ := fv.closureLess(fl, st, "j?s", "i?s")
+	// no inversion (evaluated on the explicit store term so that reads simplify to `after`)
+	s4 := st.clone()
+	fv.setHeapQuiet(s4, h, sx("store", fv.getHeap(s4, h), ref, after))
+	lji, _ := fv.closureLess(fl, s4, "j?s", "i?s")
 	fv.addFact(st, fmt.Sprintf("(forall ((i?s Int) (j?s Int)) (! (=> (and (<= 0 i?s) (< i?s j?s) (< j?s %s)) (not %s)) :pattern ((select %s i?s) (select %s j?s))))", n, lji, after, after))
 	if stable {
-		lij, _ := fv.closureLess(fl, st, "i?s", "j?s")
+		lij, _ := fv.closureLess(fl, s4, "i?s", "j?s")
 		fv.addFact(st, fmt.Sprintf("(forall ((i?s Int) (j?s Int)) (! (=> (and (<= 0 i?s) (< i?s j?s) (< j?s %s) (not %s) (not %s)) (< (%s i?s) (%s j?s))) :pattern ((select %s i?s) (select %s j?s))))",
 			n, lij, lji, pi, pi, after, after))
 	}
@@ -206,8 +208,210 @@ func (fv *FuncVC) sortStrings(call *ast.CallExpr, st *State) ([]Val, bool) {
 	return nil, true
 }
 
+// methodInfo finds the declaration of method `name` of type T in the repository.
+func (fv *FuncVC) methodInfo(T types.Type, name string) *FuncInfo {
+	for _, tt := range []types.Type{T, types.NewPointer(T)} {
+		ms := types.NewMethodSet(tt)
+		for i := 0; i < ms.Len(); i++ {
+			if f, ok := ms.At(i).Obj().(*types.Func); ok && f.Name() == name {
+				return fv.w.ByObj[f.Origin()]
+			}
+		}
+	}
+	return nil
+}
+
+// bindMethod binds receiver and int parameters of a method in a copy of st.
+func (fv *FuncVC) bindMethod(fi *FuncInfo, recv Val, args []string, st *State) (*State, bool) {
+	s := st.clone()
+	if fi.Decl.Recv != nil && len(fi.Decl.Recv.List) > 0 && len(fi.Decl.Recv.List[0].Names) > 0 {
+		s.vars[fv.info.Defs[fi.Decl.Recv.List[0].Names[0]]] = recv
+	}
+	var params []*ast.Ident
+	for _, f := range fi.Decl.Type.Params.List {
+		params = append(params, f.Names...)
+	}
+	if len(params) != len(args) {
+		return nil, false
+	}
+	for i, p := range params {
+		s.vars[fv.info.Defs[p]] = Val{args[i], SInt, types.Typ[types.Int]}
+	}
+	return s, true
+}
+
+// inlineExpr evaluates a method whose body is `return e`, without obligations or facts.
+func (fv *FuncVC) inlineExpr(fi *FuncInfo, recv Val, args []string, st *State) (Val, bool) {
+	if fi == nil || fi.Pkg != fv.fi.Pkg || len(fi.Decl.Body.List) != 1 {
+		return Val{}, false
+	}
+	ret, ok := fi.Decl.Body.List[0].(*ast.ReturnStmt)
+	if !ok || len(ret.Results) != 1 {
+		return Val{}, false
+	}
+	s, ok := fv.bindMethod(fi, recv, args, st)
+	if !ok {
+		return Val{}, false
+	}
+	fv.pureMode++
+	nObl, nFacts := len(fv.obls), len(fv.facts)
+	v := fv.eval(ret.Results[0], s)
+	fv.pureMode--
+	fv.obls = fv.obls[:nObl]
+	fv.facts = fv.facts[:nFacts]
+	return v, true
+}
+
+// sort.Sort(x) for a value x whose type implements sort.Interface with methods declared in the
+// verified package. Assumed contract of package sort: it calls x.Len() and then only x.Less and
+// x.Swap with indices in [0, Len()); on return no later element is Less than an earlier one.
+// The three methods are NOT trusted: their bodies are translated here (mechanically, from the
+// source) and these obligations are generated: Swap(a,b) exchanges positions a and b of every
+// slice field of x and changes nothing else (so any sequence of swaps is one permutation applied
+// to all slice fields at once — what keeps parallel slices aligned); Less is a strict weak order.
 func (fv *FuncVC) sortSort(call *ast.CallExpr, st *State) ([]Val, bool) {
-	return nil, false
+	if len(call.Args) != 1 {
+		return nil, false
+	}
+	T := fv.typeOf(call.Args[0])
+	stt, ok := types.Unalias(T).Underlying().(*types.Struct)
+	if !ok {
+		return nil, false
+	}
+	lenFI, lessFI, swapFI := fv.methodInfo(T, "Len"), fv.methodInfo(T, "Less"), fv.methodInfo(T, "Swap")
+	if lenFI == nil || lessFI == nil || swapFI == nil || swapFI.Pkg != fv.fi.Pkg {
+		return nil, false
+	}
+	x := fv.eval(call.Args[0], st)
+	x = fv.named(x, "sorter")
+	k := fv.nextOrd("call:sort.Sort")
+	fv.usedExterns["sort.Sort (intrinsic): calls Len once, then Less/Swap with indices in range; on return no inversion w.r.t. Less"] = true
+	nV, ok := fv.inlineExpr(lenFI, x, nil, st)
+	if !ok {
+		fv.note("sort.Sort: Len is not a single return expression")
+		fv.havocAllHeaps(st)
+		return nil, true
+	}
+	n := nV.T
+	ss := fv.th.sortOf(T)
+	type sliceField struct {
+		name       string
+		val        Val
+		heap       string
+		ref        string
+		es         Sort
+	}
+	var fields []sliceField
+	for i := 0; i < stt.NumFields(); i++ {
+		f := stt.Field(i)
+		if fv.th.sortOf(f.Type()) != SSlice {
+			continue
+		}
+		v := Val{sx(fv.th.fieldAcc(string(ss), f.Name()), x.T), SSlice, f.Type()}
+		es := fv.th.sortOf(elemType(f.Type()))
+		fields = append(fields, sliceField{f.Name(), v, fv.declSliceHeap(es), sx("sl_ref", v.T), es})
+	}
+	// ---- Swap really swaps (checked on the current state, arbitrary indices in range)
+	a, b := fv.th.freshConst("swap_i", SInt), fv.th.freshConst("swap_j", SInt)
+	hasReturn := false
+	ast.Inspect(swapFI.Decl.Body, func(m ast.Node) bool {
+		if _, ok := m.(*ast.ReturnStmt); ok {
+			hasReturn = true
+		}
+		return true
+	})
+	s2, ok := fv.bindMethod(swapFI, x, []string{a, b}, st)
+	if !ok || hasReturn {
+		fv.note("sort.Sort: Swap has an unsupported shape")
+		fv.havocAllHeaps(st)
+		return nil, true
+	}
+	s2.guard = mkAnd(st.guard, sx("<=", "0", a), sx("<", a, n), sx("<=", "0", b), sx("<", b, n))
+	savedFrames, logStart := fv.frames, len(fv.storeLog)
+	fv.frames = nil
+	s2 = fv.execBlock(swapFI.Decl.Body.List, s2)
+	fv.frames = savedFrames
+	fv.storeLog = fv.storeLog[:logStart]
+	expected := map[string]string{}
+	for _, f := range fields {
+		E, ok := expected[f.heap]
+		if !ok {
+			E = fv.getHeap(st, f.heap)
+		}
+		A := sx("select", E, f.ref)
+		expected[f.heap] = sx("store", E, f.ref, sx("store", sx("store", A, a, sx("select", A, b)), b, sx("select", A, a)))
+	}
+	names := make([]string, 0, len(fv.heapSort))
+	for h := range fv.heapSort {
+		names = append(names, h)
+	}
+	sortStringsInPlace(names)
+	for _, h := range names {
+		now := fv.getHeap(s2, h)
+		want, isField := expected[h]
+		if !isField {
+			want = fv.getHeap(st, h)
+			if now == want || h == "alloc" {
+				continue
+			}
+		}
+		fv.oblig(s2, "pre", fmt.Sprintf("pre:sort.Sort@%d:swap:%s", k, shortHeap(h)), "Swap(i,j) exchanges positions i and j of every slice field and changes nothing else", mkEq(now, want))
+	}
+	// ---- Less is a strict weak order (arbitrary contents)
+	{
+		s3 := st.clone()
+		for _, f := range fields {
+			arb := fv.th.freshConst("arb", arraySort(SInt, f.es))
+			fv.setHeapQuiet(s3, f.heap, sx("store", fv.getHeap(s3, f.heap), f.ref, arb))
+		}
+		c := fv.th.freshConst("swo_k", SInt)
+		L := func(p, q string) string {
+			v, ok := fv.inlineExpr(lessFI, x, []string{p, q}, s3)
+			if !ok {
+				return "false"
+			}
+			return v.T
+		}
+		if _, ok := fv.inlineExpr(lessFI, x, []string{a, b}, s3); !ok {
+			fv.note("sort.Sort: Less is not a single return expression")
+			fv.havocAllHeaps(st)
+			return nil, true
+		}
+		fv.oblig(st, "pre", fmt.Sprintf("pre:sort.Sort@%d:irreflexive", k), "Less is irreflexive", mkNot(L(a, a)))
+		fv.oblig(st, "pre", fmt.Sprintf("pre:sort.Sort@%d:transitive", k), "Less is transitive", mkImp(mkAnd(L(a, b), L(b, c)), L(a, c)))
+		fv.oblig(st, "pre", fmt.Sprintf("pre:sort.Sort@%d:incomparability", k), "incomparability under Less is transitive",
+			mkImp(mkAnd(mkNot(L(a, b)), mkNot(L(b, a)), mkNot(L(b, c)), mkNot(L(c, b))), mkAnd(mkNot(L(a, c)), mkNot(L(c, a)))))
+	}
+	// ---- effect: one permutation applied to every slice field; sorted w.r.t. Less
+	var pi string
+	afters := map[string]string{}
+	for i, f := range fields {
+		H := fv.getHeap(st, f.heap)
+		before := sx("select", H, f.ref)
+		after := fv.th.freshConst("sorted$"+f.name, arraySort(SInt, f.es))
+		afters[f.name] = after
+		fv.setHeap(st, f.heap, sx("store", H, f.ref, after))
+		if i == 0 {
+			pi, _ = fv.permutationFacts(st, before, after, n)
+		} else {
+			fv.addFact(st, fmt.Sprintf("(forall ((i Int)) (! (=> (and (<= 0 i) (< i %s)) (= (select %s i) (select %s (%s i)))) :pattern ((select %s i)) :pattern ((%s i))))", n, after, before, pi, after, pi))
+		}
+	}
+	s4 := st.clone()
+	for _, f := range fields {
+		fv.setHeapQuiet(s4, f.heap, sx("store", fv.getHeap(s4, f.heap), f.ref, afters[f.name]))
+	}
+	lji, _ := fv.inlineExpr(lessFI, x, []string{"j?s", "i?s"}, s4)
+	fv.addFact(st, fmt.Sprintf("(forall ((i?s Int) (j?s Int)) (=> (and (<= 0 i?s) (< i?s j?s) (< j?s %s)) (not %s)))", n, lji.T))
+	return nil, true
+}
+
+func sortStringsInPlace(xs []string) {
+	for i := 1; i < len(xs); i++ {
+		for j := i; j > 0 && xs[j] < xs[j-1]; j-- {
+			xs[j], xs[j-1] = xs[j-1], xs[j]
+		}
+	}
 }
 
 func (fv *FuncVC) mutexCall(call *ast.CallExpr, full string, st *State) ([]Val, bool) {
